@@ -22,6 +22,7 @@ import (
 	"os/signal"
 	"path/filepath"
 	"runtime"
+	"runtime/debug"
 	"sort"
 	"strconv"
 	"strings"
@@ -318,7 +319,7 @@ func (c *ctx) fail(key, desc string) {
 		switch strings.Fields(last)[0] {
 		case "ck", "cknew", "hashrd":
 			ops = []string{last}
-		case "create", "createw", "conc", "open", "has", "put", "get":
+		case "create", "createw", "bigcreate", "conc", "open", "has", "put", "get":
 			if n > 2 && c.reproduces(key, []string{"reset", last}) {
 				ops = []string{"reset", last}
 			}
@@ -431,6 +432,74 @@ func withFileSizeLimit(limit uint64, f func()) bool {
 	defer syscall.Setrlimit(syscall.RLIMIT_FSIZE, &old)
 	f()
 	return true
+}
+
+// streamReader hands out `size` bytes of a deterministic pseudo-random stream
+// (SplitMix64 from seed) in pieces of at most `piece` bytes, then io.EOF - or,
+// when failAt >= 0, the injected fault `code` once failAt bytes are out.  No
+// slice of the whole stream ever exists.
+type streamReader struct {
+	x      uint64
+	buf    [8]byte
+	nbuf   int
+	size   int64
+	off    int64
+	failAt int64
+	code   int
+	piece  int
+}
+
+func newStream(seed uint64, size, failAt int64, code, piece int) *streamReader {
+	return &streamReader{x: seed*0x9E3779B97F4A7C15 + 0xC18, size: size, failAt: failAt, code: code, piece: piece}
+}
+
+func (r *streamReader) next() byte {
+	if r.nbuf == 0 {
+		r.x += 0x9E3779B97F4A7C15
+		z := r.x
+		z = (z ^ (z >> 30)) * 0xBF58476D1CE4E5B9
+		z = (z ^ (z >> 27)) * 0x94D049BB133111EB
+		z ^= z >> 31
+		for i := 0; i < 8; i++ {
+			r.buf[i] = byte(z >> (8 * uint(i)))
+		}
+		r.nbuf = 8
+	}
+	b := r.buf[8-r.nbuf]
+	r.nbuf--
+	return b
+}
+
+func (r *streamReader) Read(p []byte) (int, error) {
+	end := r.size
+	if r.failAt >= 0 && r.failAt < end {
+		end = r.failAt
+	}
+	if r.off >= end {
+		if r.failAt >= 0 {
+			return 0, item{flag: 'x', code: r.code}.err()
+		}
+		return 0, io.EOF
+	}
+	n := len(p)
+	if r.piece > 0 && n > r.piece {
+		n = r.piece
+	}
+	if int64(n) > end-r.off {
+		n = int(end - r.off)
+	}
+	for i := 0; i < n; i++ {
+		p[i] = r.next()
+	}
+	r.off += int64(n)
+	return n, nil
+}
+
+// streamKey is the SHA-256 key of the first size bytes of the stream, hashed on the fly.
+func streamKey(seed uint64, size int64) string {
+	h := sha256.New()
+	io.Copy(h, newStream(seed, size, -1, 0, 0))
+	return hex.EncodeToString(h.Sum(nil))
 }
 
 // create runs one Create call; the result is canonical: "ok <key>", "err <code>", "panic".
@@ -607,6 +676,84 @@ func (c *ctx) runOp(line string) string {
 			if ending == 'x' && objsOf(after) != objsOf(before) {
 				c.fail("failed-create-leaves-object", "a Create whose input failed changed the object listing: "+clip(before)+" -> "+clip(after))
 			}
+		}
+		return res
+	case "bigcreate":
+		// bigcreate <store> size=<n> fail=<off|-1> code=<c> seed=<s> piece=<p> key=<sha256 of the n bytes>
+		// One large stream from a generator reader.  The model has no size bound:
+		// its answer is ok <key> for a complete stream, err <code> for a failing one.
+		if len(ws) != 8 {
+			return "bad-op"
+		}
+		st := c.store(ws[1])
+		get := func(k string) int64 {
+			v, _ := kvGet(ws, k)
+			n, err := strconv.ParseInt(v, 10, 64)
+			if err != nil {
+				return -2
+			}
+			return n
+		}
+		size, failAt, code, seed, piece := get("size"), get("fail"), get("code"), get("seed"), get("piece")
+		key, _ := kvGet(ws, "key")
+		if st == nil || size < 0 || failAt < -1 || code < 0 || seed < 0 || piece < 0 || len(key) != 64 {
+			return "bad-op"
+		}
+		want := streamKey(uint64(seed), size)
+		if want != key {
+			return "bad-op"
+		}
+		c.j.Risky(line)
+		src := newStream(uint64(seed), size, failAt, int(code), int(piece))
+		res := doCreate(st, src)
+		c.j.Clear()
+		store := ws[1]
+		switch {
+		case failAt >= 0:
+			if strings.HasPrefix(res, "ok ") {
+				c.fail("create-ok-on-failed-input-"+store, fmt.Sprintf("a stream of %d bytes failed after %d bytes but Create returned %s", size, failAt, res))
+			} else if res != "err "+strconv.FormatInt(code, 10) {
+				c.fail("create-error-not-passed-"+store, "input failed with code "+strconv.FormatInt(code, 10)+" but Create returned "+res)
+			}
+			if has, _ := st.Has(streamKey(uint64(seed), failAt)); has {
+				c.fail("failed-create-leaves-object", fmt.Sprintf("a stream that failed after %d bytes left an object holding those bytes in the %s store", failAt, store))
+			}
+		case res != "ok "+want:
+			if strings.HasPrefix(res, "ok ") {
+				c.fail("create-key-not-sha256-"+store, fmt.Sprintf("Create of a %d-byte stream (read: %d bytes) returned %s, the SHA-256 of the stream is %s", size, src.off, res, want))
+			} else {
+				c.fail("create-fails-on-good-input-"+store, fmt.Sprintf("Create of a complete %d-byte stream returned %s", size, res))
+			}
+		default:
+			rc, err := st.Open(want)
+			if err != nil {
+				c.fail("open-after-create-wrong-"+store, "Open of the key of a large object failed")
+				break
+			}
+			ref := newStream(uint64(seed), size, -1, 0, 0)
+			a, b := make([]byte, 1<<16), make([]byte, 1<<16)
+			var total int64
+			same := true
+			for {
+				n, err := io.ReadFull(rc, a)
+				if n > 0 {
+					m, _ := io.ReadFull(ref, b[:n])
+					if m != n || !bytes.Equal(a[:n], b[:n]) {
+						same = false
+					}
+					total += int64(n)
+				}
+				if err != nil {
+					break
+				}
+			}
+			rc.Close()
+			if !same || total != size {
+				c.fail("open-after-create-wrong-"+store, fmt.Sprintf("Open of a created %d-byte object returned %d bytes that are not the stream", size, total))
+			}
+		}
+		if src.failAt < 0 && src.off != size && strings.HasPrefix(res, "ok ") {
+			c.fail("create-reads-part-of-input-"+store, fmt.Sprintf("Create returned %s after reading %d of %d bytes", res, src.off, size))
 		}
 		return res
 	case "createw":
@@ -1373,6 +1520,47 @@ func (g *gen) writeFaults(thorough bool) {
 	}
 }
 
+// largeStreams: size independence.  The model has no size bound; streams around
+// 64 MiB and one above 128 MiB come from a generator reader (never a slice),
+// with a fault after the 64 MiB mark, for every store kind.
+func (g *gen) largeStreams(thorough bool) {
+	rep := g.c.rep
+	const mi = int64(1) << 20
+	type lc struct {
+		store        string
+		size, failAt int64
+	}
+	cases := []lc{{"mem", 64*mi + 1, -1}, {"mem", 64*mi + 4096, 64*mi + 1000}}
+	if thorough {
+		cases = nil
+		for _, st := range []string{"mem", "map", "fs"} {
+			for _, sz := range []int64{64*mi - 1, 64 * mi, 64*mi + 1, 130*mi + 7} {
+				cases = append(cases, lc{st, sz, -1})
+			}
+			cases = append(cases, lc{st, 64*mi + 4096, 64*mi + 1000}, lc{st, 64*mi + 1, 64 * mi}, lc{st, 130 * mi, 128*mi + 5})
+		}
+	}
+	for i, cse := range cases {
+		seed := uint64(g.rnd.Intn(1 << 30))
+		piece := hx.Pick(g.rnd, []int{0, 32768, 70000, 1 << 20})
+		code := 0
+		if cse.failAt >= 0 {
+			code = hx.Pick(g.rnd, []int{960 + i, 900, 902})
+		}
+		g.emit("reset")
+		line := fmt.Sprintf("bigcreate %s size=%d fail=%d code=%d seed=%d piece=%d key=%s", cse.store, cse.size, cse.failAt, code, seed, piece, streamKey(seed, cse.size))
+		g.emit(line)
+		g.emit("reset")
+		debug.FreeOSMemory()
+		kind := "complete"
+		if cse.failAt >= 0 {
+			kind = "fails-after-64MiB"
+		}
+		rep.Count("large-stream-" + cse.store + "-" + kind)
+		rep.Case(fmt.Sprintf("bigcreate %s %d %d", cse.store, cse.size, cse.failAt), true)
+	}
+}
+
 func (g *gen) randomScript(content []byte, maxChunk int, failAt int) []item {
 	var s []item
 	off := 0
@@ -1822,6 +2010,7 @@ func main() {
 			timed("fault enumeration (len<=10)", func() { g.faultEnumeration(10) })
 			timed("error values (len<=6)", func() { g.errorValues(6) })
 			timed("file-write faults (RLIMIT_FSIZE)", func() { g.writeFaults(true) })
+			timed("large streams (64 MiB +-1, > 128 MiB)", func() { g.largeStreams(true) })
 			timed("big contents", func() { g.bigContents(400) })
 			timed("gated interleavings", func() { g.gated(45000, true) })
 			timed("concurrent rounds", func() { g.concurrent(650, 16); g.concurrent(80, 64) })
@@ -1831,6 +2020,7 @@ func main() {
 			timed("fault enumeration (len<=7)", func() { g.faultEnumeration(7) })
 			timed("error values (len<=3)", func() { g.errorValues(3) })
 			timed("file-write faults (RLIMIT_FSIZE)", func() { g.writeFaults(false) })
+			timed("large streams (64 MiB + 1)", func() { g.largeStreams(false) })
 			timed("big contents", func() { g.bigContents(114) })
 			timed("gated interleavings", func() { g.gated(2500, true) })
 			timed("concurrent rounds", func() { g.concurrent(60, 16); g.concurrent(4, 64) })
